@@ -38,7 +38,7 @@ typedef struct {
     size_t ips_calls, ms_calls, reset_calls, hook_calls; int ms_flag; bool ms_stop; int hook_req; size_t srcs_dropped;
     int sys_kind; size_t sys_started, sys_stopped, sys_ctx_started, sys_ctx_stopped, sys_tick, sys_pill;
     size_t memnew_calls; void *memnew_ret; size_t write_calls; int write_fd; void *write_ptr; size_t pipe_len; size_t read_calls;
-    ev_src_t *newevt_src; size_t tls_set_calls, ctxnew_calls;
+    ev_src_t *newevt_src; size_t tls_set_calls, ctxnew_calls; size_t mapclear_calls, fd_opened, epoll_calls, pollrm_calls; int epoll_op, epoll_fd;
     size_t pw_calls, recv_calls, newevt_calls, process_calls, pushevt_calls, iterate_calls;
     size_t maprm_calls, ctxdereg_calls, fscleanup_calls, unrefp_calls; bool start_arg;
     size_t itr_get_calls, itr_rm_calls; bool itr_nonhead;      /* iterator accesses; nonhead: some access was not at position 0 */
@@ -47,6 +47,8 @@ typedef struct {
 ghost_t g;
 size_t g_others_running;     /* number of OTHER modules of the context that are RUNNING (focus-object technique, DESIGN.md 2.6) */
 bool g_alloc_fails, g_pipe_full; ps_priv_t *g_msg; ps_priv_t *g_pmsg; size_t g_P0, g_e0, g_u0, g_cb0;     /* environment of one send: allocation outcome, recipient pipe full?, the caller's message */
+int g_open_fd;       /* the (single) descriptor of the focus object that is currently open and owned by the library, or -1 */
+m_map_t *g_subs;
 m_ctx_t *g_tls; int g_tls_set_ret, g_ctxnew_ret; bool g_dereg_allowed;      /* the calling thread's context slot */
 int g_nfds, g_pw_errno; ev_src_t *g_psrc; size_t g_pe0, g_pr0;      /* one poll batch: number of ready sources, errno of poll_wait, the focus source */
 int g_ips_ret, g_ms_ret, g_maprm_ret, g_ctxdereg_ret;   /* outcomes of environment-dependent callees in this pre-state */
